@@ -121,6 +121,22 @@ pub fn handle(name: &str, a: &[&str]) -> String {
                 Err(e) => format!("ERR {:?}", e).replace('\n', " "),
             }
         }
+        #[cfg(feature = "image")]
+        "image_to_file" => {
+            // image_to_file v=<v> mod=<hex> path=<hex utf8>: Ok / Err of ImageBuilder::to_file (panics are caught by the caller)
+            let v: usize = kv(a, "v").unwrap().parse().unwrap();
+            let raw = unhex(kv(a, "mod").unwrap());
+            let mut qr = crate::QRCode::default(17 + 4 * (v + 1));
+            for (i, b) in raw.iter().enumerate() {
+                qr.data[i] = crate::Module(*b);
+            }
+            let path = String::from_utf8(unhex(kv(a, "path").unwrap())).unwrap();
+            let b = crate::convert::image::ImageBuilder::default();
+            match b.to_file(&qr, &path) {
+                Ok(()) => format!("OK exists={}", std::path::Path::new(&path).exists()),
+                Err(e) => format!("ERR {:?}", e).replace('\n', " "),
+            }
+        }
         "wasm_color" => {
             // wasm_color <which 0..2> <hex utf8 string>
             let s = String::from_utf8(unhex(a[2])).unwrap();
